@@ -24,6 +24,7 @@ RULE_DOC = {
     'R12c': 'f64::{MAX,MIN,MIN_POSITIVE,NAN,INFINITY,NEG_INFINITY,EPSILON} -> fconst_f64_*() getters with distinct uninterpreted spec constants (_shared/floats.rs)',
     'R13': 'lock-and-wait idiom on (Mutex, Condvar) -> single call on prelude Closed cell (blocking not modelled)',
     'R14': 'identifier hygiene for Verus keywords',
+    'R16': 'destructuring assignment `(a, _, b) = EXPR;` (statement, not `let`) -> `let tmp__N = EXPR; a = tmp__N.0; b = tmp__N.2;` (Verus has no destructuring assignment; identical semantics: EXPR is evaluated once, components are assigned left to right, `_` components are dropped)',
     'R15': 'closure combinators on Option: `X.map_or(D, |v| E)` -> `(match X { Some(v) => E, None => D })`; `X.map(|v| E).unwrap_or(D)` likewise; `X.is_some_and(|v| E)` -> `(match X { Some(v) => E, None => false })` (identical semantics; D is evaluated lazily instead of eagerly - D must be side-effect free, which holds for the literals/variables it is applied to: anything else is left alone)',
 }
 
@@ -416,6 +417,47 @@ def r15_option_closures(text):
     return text, hits
 
 
+def r16_destructuring_assignment(text):
+    """`(a, _, b) = EXPR;` at statement level (not `let (..) = ..`) -> temp + field assignments."""
+    hits = 0
+    for n in range(50):
+        m = mask(text)
+        mt = None
+        for cand in re.finditer(r'(?m)^([ \t]*)\(([^()=;{}]*,[^()=;{}]*)\)\s*=(?!=)', m):
+            indent = cand.group(1)
+            names = [x.strip() for x in text[cand.start(2):cand.end(2)].split(',')]
+            if names and names[-1] == '':
+                names = names[:-1]
+            if not all(re.match(r'^(_|[A-Za-z_][\w\.]*|\*\w+)$', x) for x in names):
+                continue
+            # find the terminating `;` at depth 0
+            d, j = 0, cand.end()
+            while j < len(m):
+                ch = m[j]
+                if ch in '([{':
+                    d += 1
+                elif ch in ')]}':
+                    d -= 1
+                elif ch == ';' and d == 0:
+                    break
+                j += 1
+            if j >= len(m):
+                continue
+            expr = text[cand.end():j].strip()
+            tmp = 'tmp__%d' % (hits + 1)
+            parts = ['%slet %s = %s;' % (indent, tmp, expr)]
+            for i, nm in enumerate(names):
+                if nm != '_':
+                    parts.append('%s%s = %s.%d;' % (indent, nm, tmp, i))
+            mt = (cand.start(), j + 1, '\n'.join(parts))
+            break
+        if not mt:
+            break
+        text = text[:mt[0]] + mt[2] + text[mt[1]:]
+        hits += 1
+    return text, hits
+
+
 RULES = {
     'R1': r1_async,
     'R2': r2_handoff,
@@ -432,6 +474,7 @@ RULES = {
     'R12c': r12c_float_consts,
     'R14': r14_hygiene,
     'R15': r15_option_closures,
+    'R16': r16_destructuring_assignment,
 }
 # order in which enabled rules are applied (R2 needs `.await` still present)
-ORDER = ['R8', 'R2', 'R1', 'R6', 'R15', 'R12', 'R12u64', 'R12usize', 'R12f', 'R12c', 'R4', 'R3', 'R7', 'R5', 'R14']
+ORDER = ['R8', 'R2', 'R1', 'R6', 'R16', 'R15', 'R12', 'R12u64', 'R12usize', 'R12f', 'R12c', 'R4', 'R3', 'R7', 'R5', 'R14']
